@@ -80,6 +80,8 @@ type Doc struct {
 	hidden int
 	Skip   int ` + "`json:\"-\"`" + `
 	Note   string ` + "`json:\"note,omitempty\"`" + `
+	OptLvl Level ` + "`json:\"optLvl,omitempty\"`" + `
+	OptLs  []Level ` + "`json:\"optLs,omitempty\"`" + `
 }
 `
 
@@ -550,6 +552,10 @@ func Check() {
 		v.In = mkInner("in", 2)
 	default:
 		v.Note = vfString("note", 0, 1, "alnum")
+		if vfBool("optLvl") {
+			v.OptLvl = High
+			v.OptLs = []Level{Low}
+		}
 	}
 	raw, err := json.Marshal(v)
 	vfAssert(err == nil, "C03/marshalling-succeeds")
